@@ -81,7 +81,7 @@ var c01Letters = []string{
 	"ADD nh1@D a", "ADD nh1@D b", "REPLACE nh1@D b", "DELETE nh1@D", "ADD nh2@D", "DELETE nh2@D", "ADD nh1@V", "DELETE nh1@V",
 	"ADD nhg1@D {1}", "ADD nhg1@D {1,2}", "REPLACE nhg1@D {2}", "DELETE nhg1@D", "ADD nhg1@V {1}", "DELETE nhg1@V",
 	"ADD v4 p@D ->1", "ADD v4 p@D ->1 meta", "ADD v4 p@D ->1@V", "REPLACE v4 p@D ->1 meta", "DELETE v4 p@D", "ADD v4 p@V ->1@D", "DELETE v4 p@V",
-	"ADD v6 q@D ->1", "DELETE v6 q@D",
+	"ADD v6 q@D ->1", "ADD v6 q@D ->1@V", "DELETE v6 q@D",
 	"ADD mpls 100@D ->1", "REPLACE mpls 100@D ->1@V", "DELETE mpls 100@D", "DELETE mpls 2^32+100@D",
 	"FLUSH D", "FLUSH V", "FLUSH all",
 }
@@ -120,7 +120,7 @@ var c02Letters = []string{
 	"ADD nh1@D a", "DELETE nh1@D", "ADD nh2@D", "DELETE nh2@D", "ADD nh1@V",
 	"ADD nhg1@D {1}", "ADD nhg1@D {1,2}", "REPLACE nhg1@D {2}", "DELETE nhg1@D", "ADD nhg2@D {2}", "ADD nhg1@V {1}",
 	"ADD v4 p@D ->1", "ADD v4 p@D ->1@V", "REPLACE v4 p@D ->2", "DELETE v4 p@D",
-	"ADD v6 q@D ->1", "ADD mpls 100@D ->1", "FLUSH all",
+	"ADD v6 q@D ->1", "ADD v6 q@D ->1@V", "DELETE v6 q@D", "ADD mpls 100@D ->1", "ADD mpls 100@D ->1@V", "DELETE mpls 100@D", "FLUSH all",
 	"ADD nhg3@D {0}", "ADD nhg3@D {}", "ADD v4 s@D ->0", "ADD v4 s@D ->1@NOPE",
 }
 
@@ -130,18 +130,19 @@ var c02Graphs = map[string][]string{
 	"G3": {"ADD nh1@V", "ADD nhg1@V {1}", "ADD v4 p@D ->1@V", "ADD nh1@D a", "ADD nhg1@D {1}", "ADD mpls 100@D ->1"},
 	"G4": {"ADD nh1@D a", "ADD nh2@D", "ADD nhg1@D {1,2}", "ADD v4 p@D ->1", "ADD v4 r@D ->1", "ADD nhg2@D {3}", "ADD v6 q@D ->2"},
 	"G5": {"ADD nh1@D a", "ADD nhg1@D {1}", "ADD v4 p@D ->1", "REPLACE v4 p@D ->2", "ADD nhg2@D {2}", "ADD nh2@D", "DELETE v4 p@D"},
+	"G6": {"ADD nh1@V", "ADD nhg1@V {1}", "ADD v6 q@D ->1@V", "ADD mpls 100@D ->1@V", "ADD nh1@D a", "ADD nhg1@D {1}", "ADD v4 p@D ->1"},
 }
 
 // RunC02 decides C02 at the RIB tier.
 func RunC02(rep *report.Report, tier string) {
 	depth, maxGraph := 4, 7
-	ck := NewClock(tier, 100*time.Second, 20*time.Minute, 15)
+	ck := NewClock(tier, 100*time.Second, 20*time.Minute, 20)
 	if tier == "thorough" {
 		depth, maxGraph = 6, 7
 	}
 	letters := Alphabet(c02Letters...)
 	rep.Set("alphabet", Names(letters))
-	for _, g := range []string{"G1", "G2", "G3", "G4", "G5"} {
+	for _, g := range []string{"G1", "G2", "G3", "G4", "G5", "G6"} {
 		ls := c02Graphs[g]
 		if len(ls) > maxGraph {
 			continue
@@ -180,13 +181,18 @@ func RunC02(rep *report.Report, tier string) {
 		o := &Options{Letters: letters, NoFwdRefs: nofwd, Checks: Checks{Resolve: true, Fold: true}}
 		Search(rep, fmt.Sprintf("mixed/forward-refs-%v", !nofwd), o, depth, ck.Next())
 	}
+	// from non-initial states: a DELETE that must be refused needs an installed chain first
+	for _, name := range []string{"groups-installed", "cross-instance"} {
+		o := &Options{Letters: letters, Checks: Checks{Resolve: true, Fold: true}, Init: Alphabet(c03Inits[name]...)}
+		Search(rep, "mixed/from-"+name, o, depth, ck.Next())
+	}
 }
 
 var c03Letters = []string{
 	"ADD v4 p@D ->1", "ADD v4 p@D ->2", "ADD v4 p@D ->1@V", "REPLACE v4 p@D ->2", "DELETE v4 p@D",
 	"ADD v4 p@V ->1@D", "ADD v4 p@V ->1", "DELETE v4 p@V",
-	"ADD v6 q@D ->1", "ADD v6 q@D ->2", "DELETE v6 q@D",
-	"ADD mpls 100@D ->1", "ADD mpls 100@D ->2", "DELETE mpls 100@D",
+	"ADD v6 q@D ->1", "ADD v6 q@D ->2", "ADD v6 q@D ->1@V", "DELETE v6 q@D",
+	"ADD mpls 100@D ->1", "ADD mpls 100@D ->2", "ADD mpls 100@D ->1@V", "DELETE mpls 100@D",
 	"ADD nhg1@D {1}", "ADD nhg1@D {2}", "ADD nhg1@D {1,2}", "REPLACE nhg1@D {2}", "DELETE nhg1@D",
 	"ADD nhg2@D {1}", "ADD nhg2@D {2}", "DELETE nhg2@D", "ADD nhg1@V {1}", "DELETE nhg1@V",
 	"ADD nh1@D a", "DELETE nh1@D", "ADD nh2@D", "DELETE nh2@D", "ADD nh1@V", "DELETE nh1@V",
@@ -235,7 +241,7 @@ var c16Letters = []string{
 	"ADD nh1@D a", "ADD nh1@D b", "DELETE nh1@D", "ADD nh1@V", "DELETE nh1@V",
 	"ADD nhg1@D {1}", "ADD nhg1@D {1,2}", "ADD nh2@D", "DELETE nhg1@D", "ADD nhg1@V {1}", "DELETE nhg1@V",
 	"ADD v4 p@D ->1", "ADD v4 p@D ->1@V", "REPLACE v4 p@D ->1 meta", "DELETE v4 p@D", "ADD v4 p@V ->1", "DELETE v4 p@V",
-	"ADD v6 q@D ->1", "DELETE v6 q@D", "ADD mpls 100@D ->1", "DELETE mpls 100@D",
+	"ADD v6 q@D ->1", "ADD v6 q@D ->1@V", "DELETE v6 q@D", "ADD mpls 100@D ->1", "DELETE mpls 100@D",
 	"FLUSH D", "FLUSH V", "FLUSH all",
 }
 
@@ -281,7 +287,7 @@ var c07Letters = []string{
 	"ADD nh1@D a", "ADD nh1@D b", "DELETE nh1@D", "ADD nh1@V",
 	"ADD nhg1@D {1}", "ADD nhg1@D {1,2}", "ADD nh2@D", "DELETE nhg1@D", "ADD nhg1@V {1}",
 	"ADD v4 p@D ->1", "ADD v4 p@D ->1 meta", "ADD v4 p@D ->1@V", "DELETE v4 p@D", "ADD v4 p@V ->1",
-	"ADD v6 q@D ->1", "DELETE v6 q@D", "ADD mpls 100@D ->1", "REPLACE mpls 100@D ->1@V", "DELETE mpls 100@D",
+	"ADD v6 q@D ->1", "ADD v6 q@D ->1@V", "DELETE v6 q@D", "ADD mpls 100@D ->1", "REPLACE mpls 100@D ->1@V", "DELETE mpls 100@D",
 	"FLUSH D", "FLUSH V", "FLUSH all",
 }
 
